@@ -98,6 +98,21 @@ def make_spec(seed, rng, k=None, mode=None, N=None, v=None):
     if rng.random() < 0.3:
         knobs['defaults_split'] = rng.randint(0, 99)
     _ws.gen_relpath(rng, world, disc, opt, plan, 0.1)
+    if rng.random() < 0.3:
+        # tests that print, also lines that begin like the runner's own keep-alive dots
+        cands = [d for d in disc if C.test_phases(d) and not d['t'].get('doctest')]
+        for k in range(rng.randint(1, 3)):
+            if cands:
+                d = rng.choice(cands)
+                plan.append(C.fault_entry(d, rng.choice(C.test_phases(d)), {
+                    'a': 'write', 'stream': rng.choice(['stdout', 'print']),
+                    'text': rng.choice(['..F. nested run %d\n' % k, './data/file%d\n' % k,
+                                        '... done %d\n' % k, 'plain line %d\n' % k,
+                                        '.hidden%d\n' % k])}))
+    if rng.random() < 0.25:
+        knobs['stdout_yields'] = True      # a slow parent stdout: flushes are scheduling points
+    if rng.random() < 0.25:
+        knobs['cpus'] = rng.choice([1, 2])  # fewer CPUs than -j must not serialise the layers
     return {'property': ID, 'seed': seed, 'world': world, 'plan': _ws.order_plan(plan),
             'opt': opt, 'sched': sched, 'knobs': knobs, 'mode': mode}
 
